@@ -346,6 +346,8 @@ func runC19(r *ev.Run, thorough bool) int {
 		sbound, sbudget = 3, 200000
 	}
 	sexecs := nhSchedRun(r, "C19", nhConcArg{Algo: "prophet", Mode: "vectors", Peers: 3}, sbound, sbudget)
+	// the forwarding rule under concurrency: sender selection racing with an encounter and a received vector
+	sexecs += nhSchedRun(r, "C19", nhConcArg{Algo: "prophet", Mode: "forwardrule", Peers: 1}, sbound, sbudget)
 	if trans == 0 || st.SendsSeen == 0 {
 		r.Violation("C19/vacuous", "none", "nothing explored", nil)
 	}
